@@ -1598,6 +1598,11 @@ class AsyncGraph:
         # Stop all nodes
         fs = [n._stop(timeout=timeout) for n in self._async_nodes.values()]
 
+        # Mark the synchronizer as resetting *before* looking for a pending action. The supervisor's thread may not have
+        # queued its next action future yet (e.g. stop() directly after run()); without this flag it would later wait
+        # forever on an action that is never set nor cancelled, blocking the _stopping task queued behind it.
+        self._synchronizer._must_reset = True
+
         # Initiate stop (this unblocks the root's step, that is waiting for an action).
         if len(self._synchronizer.action) > 0:
             self._synchronizer.action[-1].cancel()
